@@ -43,6 +43,8 @@ type OrgbServer struct {
 	notify      chan struct{}
 	Connections int
 	Requests    int
+	// Mute: the server accepts connections and reads requests but never answers (a server that hangs)
+	Mute bool
 }
 
 func orgbString(s string) []byte {
@@ -137,6 +139,9 @@ func (s *OrgbServer) serve(conn net.Conn) {
 		s.mu.Lock()
 		s.Requests++
 		s.mu.Unlock()
+		if s.Mute {
+			continue
+		}
 		switch cmd {
 		case 50: // set client name
 		case 0:
